@@ -487,6 +487,13 @@ func (q *TransferQueue) collectBatches() {
 		if err != nil && !errors.IsRetriableError(err) {
 			tools.VerifTrace("tq.abort")
 			q.wait.Abort()
+			// Keep receiving so that callers blocked in, or still
+			// calling, Add() are released.
+			for !closing {
+				if _, ok := <-q.incoming; !ok {
+					closing = true
+				}
+			}
 			break
 		}
 
